@@ -24,6 +24,9 @@ pub struct Registry {
     pub consts: HashMap<String, (Ty, String)>,
     /// type aliases the caller wants mapped (e.g. generic params)
     pub aliases: HashMap<String, Ty>,
+    /// Lean names of the helper functions translated because a selected function calls them
+    /// (nested fns, private module-level helpers) in the unit being emitted
+    pub helpers: std::cell::RefCell<Vec<String>>,
 }
 
 pub fn int_ty(name: &str) -> Option<&'static str> {
@@ -342,6 +345,7 @@ impl<'a> FnTr<'a> {
         let (text, sig) = sub.function(&f.sig, &f.block, &lean_name)?;
         self.extra_defs.extend(sub.extra_defs);
         self.extra_defs.push(text);
+        self.reg.helpers.borrow_mut().push(lean_name.clone());
         self.local_fns.insert(name, sig);
         Ok(())
     }
